@@ -346,7 +346,7 @@ pub fn run(ctx: &Ctx) {
         for h in &r.nt {
             ctx.nontrivial(*h);
         }
-        if !r.nt.is_empty() && sampled < 4 && g.n >= 4 && hash_of(g) % 37 == 0 {
+        if !r.nt.is_empty() && sampled < 4 && g.n >= 4 && (ctx.samples_len() < 2 || hash_of(g) % 37 == 0) {
             sampled += 1;
             ctx.sample(10, || json!({"graph": g_json(g, &[]), "selections_checked": sels[g.n].len()}));
         }
